@@ -324,8 +324,14 @@ pub trait MontConfig<const N: usize>: 'static + Sync + Send + Sized {
         if a.is_zero() {
             return None;
         }
+        if *a == Fp::new_unchecked(Self::R) {
+            // inverse(1) = 1
+            return Some(*a);
+        }
+        // a canonical constant (top limb kept far below the modulus' top limb)
         let mut k = [0x6a09e667f3bcc908u64; N];
         k[0] = 0xbb67ae8584caa73b;
+        k[N - 1] = 0x0000_0000_2545_f491;
         Some(Fp::new_unchecked(kani_model_mul::<Self, N>(&a.0, &BigInt::new(k))))
     }
 
